@@ -152,9 +152,32 @@ class World(object):
     def __init__(self):
         self.objs = []       # (kind, object, probe-fn, recorded vector, description)
 
+    res = None
+
     def add(self, kind, obj, desc):
         fn = {"tc": probe_typechecker, "cls": probe_class, "val": probe_validator, "fc": probe_formatchecker}[kind]
         self.objs.append([kind, obj, fn, fn(obj), desc])
+        if kind == "cls" and self.res is not None:
+            # check_schema of a class is ITS metaschema read with ITS keyword table and type checker -- also for a class
+            # that shares its metaschema (and the metaschema's id) with its parent or a sibling
+            for cand in ({"type": "string"}, {"minLength": -1}, {"maxLength": 2.0}, {"properties": {"a": {"type": 12}}}, {"enum": []},
+                         {"minimum": "x"}):
+                try:
+                    own = not list(obj(obj.META_SCHEMA).iter_errors(copy.deepcopy(cand)))
+                except Exception:
+                    continue
+                try:
+                    obj.check_schema(copy.deepcopy(cand))
+                    got = True
+                except impl.exceptions.SchemaError:
+                    got = False
+                except Exception:
+                    continue
+                if got != own:
+                    self.res.fail(("check_schema-is-not-the-class-reading-its-own-metaschema",),
+                                  "%s: candidate %s: check_schema %s, the class's own evaluation of its metaschema %s" % (
+                                      desc, impl.cj(cand), "accepts" if got else "refuses", "accepts" if own else "refuses"))
+                    break
         return obj
 
     def pick(self, kind, idx):
@@ -225,6 +248,7 @@ class C16(Prop):
 
     def run(self, case, res, V, js, FC):
         w = World()
+        w.res = res
         for d, cls in impl.CLS.items():
             w.add("cls", cls, "Draft%dValidator" % d)
             w.add("tc", cls.TYPE_CHECKER, "draft%d_type_checker" % d)
